@@ -21,7 +21,8 @@ CONSTANTS RootKeys, SDs, L0s, Positions, Ops,
           Clock,               \* the instants the clock passes through: sequence of [l0, pos] (client and DC agree);
                                \* Tick moves to the next one, also across an L0 boundary
           DefaultRk,           \* root key the DC uses when the caller names none
-          ReplyKinds,          \* subset of {"rpc", "pub"}: seed-key reply / public-key-only reply
+          ReplyKinds,          \* subset of {"rpc", "pub", "err"}: seed-key reply / public-key-only reply / GetKey failure
+          Cancels,             \* BOOLEAN: async calls may be cancelled while suspended
           LaterReplies,        \* TRUE: the DC may answer with a later position than requested
           SyncFlavours         \* subset of BOOLEAN: which API flavours are explored
 
@@ -136,11 +137,21 @@ DcReply(o) ==
                  /\ hist' = Append(hist, <<"reply", o, k, NowPos>>)
   /\ UNCHANGED <<loaded, cache, obtained, busy, tick, rpcLog>>
 
+(* an asyncio call cancelled while it is suspended (waiting for the DC or for the connection to close): it ends  *)
+(* without a result and without having touched the cache                                                      *)
+Cancel(o) ==
+  /\ Cancels /\ busy = "none"
+  /\ ops[o].st \in {"await", "replied"} /\ ops[o].rpc /\ ~ops[o].sync
+  /\ ops' = [ops EXCEPT ![o].st = "done", ![o].res = <<"cancelled">>]
+  /\ hist' = Append(hist, <<"cancel", o>>)
+  /\ UNCHANGED <<loaded, cache, obtained, busy, tick, rpcLog>>
+
 Key(t, p) == <<"key", t, p>>
 
 ResultOf(op) ==
   LET e == op.env
-  IN IF op.kind = "unprotect"
+  IN IF e.src = "err" THEN <<"dc_error">>
+     ELSE IF op.kind = "unprotect"
        THEN IF e.src = "pub" THEN <<"unauthorized">>
             ELSE IF e.id = <<op.rk, op.sd, op.l0>> /\ PosGeq(e.pos, op.pos)
                    THEN <<"plain", Key(e.id, op.pos)>>
@@ -166,7 +177,7 @@ Finish(o) ==
 
 Next == \/ Tick
         \/ \E rk \in RootKeys : LoadRoot(rk)
-        \/ \E o \in Ops : Begin(o) \/ DcReply(o) \/ Finish(o)
+        \/ \E o \in Ops : Begin(o) \/ DcReply(o) \/ Finish(o) \/ Cancel(o)
 
 Spec == Init /\ [][Next]_vars /\ \A o \in Ops : WF_vars(DcReply(o)) /\ WF_vars(Finish(o))
 
@@ -191,6 +202,7 @@ Transparent ==
      IN /\ r # <<"BAD">>
         /\ (op.kind = "unprotect" /\ r[1] = "plain") => r[2] = Key(<<op.rk, op.sd, op.l0>>, op.pos)
         /\ (r[1] = "unauthorized") => op.env.src = "pub"
+        /\ (r[1] = "dc_error") => op.env.src = "err"
         /\ (r[1] = "blob") => (r[4] = Key(r[2], r[3]) /\ r[2][2] = op.sd /\ (op.rk # NoRk => r[2][1] = op.rk)
                                /\ r[2][3] = op.at[1] /\ r[3] = op.at[2])   \* the interval of the instant the key was chosen
 
@@ -206,6 +218,11 @@ NoRepeatRpc ==
 (* with a loaded root key nothing goes to the DC for that key                         *)
 RootKeyIsOffline ==
   [][\A o \in Ops : (ops[o].st = "idle" /\ ops'[o].st = "await") => ops'[o].rk \notin loaded]_vars
+
+(* a call that failed, was refused the seed keys or was cancelled leaves the cache as it was               *)
+FailedCallsLeaveCacheUnchanged ==
+  [][\A o \in Ops : (ops[o].st # "done" /\ ops'[o].st = "done" /\ ops'[o].res[1] \in {"dc_error", "unauthorized", "cancelled"})
+        => (cache' = cache /\ obtained' = obtained)]_vars
 
 CacheMonotone ==
   [][\A t \in Triples : cache[t].src # "none" => (cache'[t].src # "none" /\ PosGeq(cache'[t].pos, cache[t].pos))]_vars
